@@ -83,11 +83,11 @@ def stepped_plan(rng, adocs):
 
 def stepped_query(rng):
     def t(c):
-        return {"op": "term", "f": "body", "t": [c], "b4": rng.choice([4, 4, 8])}
+        return {"op": "term", "f": "body", "t": [c], "b4": rng.choice([4, 4, 8, 1])}
     a, b = (t(1), t(2)) if rng.random() < 0.5 else (t(2), t(1))
     c = {"op": "term", "f": rng.choice(["body", "title"]), "t": rng.choice([[1], [1, 2]]), "b4": 4}
     form = rng.choice(["and", "and", "and3", "andmaybe", "andmaybe", "andmaybe-or", "or", "andor", "dismax",
-                       "andnot-and", "andnot-and", "andnot", "andnot-or", "andnot-or", "dismax-tb"])
+                       "andnot-and", "andnot-and", "andnot", "andnot-or", "andnot-or", "dismax-tb", "or-coord", "or-coord"])
     if form == "and":
         return {"op": "and", "kids": [a, b], "b4": 4}
     if form == "and3":
@@ -104,6 +104,10 @@ def stepped_query(rng):
         # search passes what either excluded term could score)
         pos = dict(t(1), b4=rng.choice([8, 16]))
         return {"op": "andnot", "a": pos, "b": {"op": "or", "kids": [t(2), c], "b4": 4}}
+    if form == "or-coord":
+        # (clauses weighted far below 1 under a coordination bonus: the coordinated score of a document that has
+        # both terms is larger than the union's own score, so thresholds have to be translated on the way down)
+        return {"op": "or", "kids": [dict(t(1), b4=1), dict(t(2), b4=1)], "b4": 4, "scale": rng.choice([0.9, 0.99, 0.5])}
     if form == "dismax-tb":
         return {"op": "dismax", "kids": [a, b], "b4": 4, "tb": rng.choice([0.25, 0.5])}
     if form == "andmaybe-or":
@@ -137,7 +141,8 @@ def stepped_span_query(rng):
     `a` and the `ab` are within the slop changes from run to run - the conjunction underneath has documents (and
     whole blocks) without a matching span"""
     t = lambda c: {"op": "term", "f": "body", "t": c, "b4": 4}
-    form = rng.choice(["phrase", "phrase", "phrase-ab", "near", "near", "sequence", "not", "first", "or-phrase"])
+    form = rng.choice(["phrase", "phrase", "phrase-ab", "near", "near", "sequence", "not", "first", "first-or", "first-or",
+                       "or-phrase"])
     slop = rng.choice([1, 1, 2, 3, 4])
     if form == "phrase":
         return {"op": "phrase", "f": "body", "words": [[1], [1, 2]], "slop": slop, "b4": rng.choice([4, 4, 8])}
@@ -153,6 +158,10 @@ def stepped_span_query(rng):
     if form == "not":
         return {"op": "spannot", "a": t([1]), "b": {"op": "spannear", "a": t([1]), "b": t([2]), "slop": 1,
                                                      "ordered": True, "mindist": 1}}
+    if form == "first-or":
+        # (the child is a union whose sparse branch runs out first: replace() then rebuilds the span matcher around
+        # another child, and has to keep the limit)
+        return {"op": "spanfirst", "q": {"op": "or", "kids": [t([2]), t([1, 2])], "b4": 4}, "limit": rng.choice([1, 2, 3, 4])}
     if form == "first":
         return {"op": "spanfirst", "q": t([2]) if rng.random() < 0.6 else t([1, 2]), "limit": rng.choice([1, 2, 3])}
     return {"op": "or", "kids": [{"op": "phrase", "f": "body", "words": [[1], [1, 2]], "slop": slop, "b4": 4},
